@@ -1,23 +1,30 @@
-(** C14 — ill-formed grammars are rejected, never silently repaired (the part a theorem carries).
-    The front end is  scanner ; parser.  The scanner is [FScan.fscan_all] (total; tied to the code by C13's
-    correspondence); the parser is [Parse.parse] on the shipped tables, for which the kernel re-checks on every run
-    (C15) that [lr_valid spec tables annot = true] and that recovery is gated off.  Hence: *)
+(** C14 — ill-formed grammars are rejected, never silently repaired.
+    The front end is  scanner ; parser ; semantic checks.
+    - scanner: [FScan.fscan_all] (total; tied to the code by C13's correspondence);
+    - parser: [Parse.parse] on the SHIPPED tables, for which the kernel re-checks on every run (C15) that
+      [valid_backward spec tables annot = true] and that recovery is gated off;
+    - semantic checks: [Sem.sem_verdict] (Front/Sem.v), a model of ast.NewLexPart / LexProdMap.Add, ast.consistent,
+      LexPart.UndefinedRegDef, symbols.NewSymbols, UpdateStringLitTokens and the recursion check of the regular
+      definitions, in the order in which main.go runs them; compared with gocc's exit status (both directions) on
+      every run.  [Sem.front_accepts] is the conjunction  parse succeeds && verdict = SemOk. *)
 From Coq Require Import List Arith ZArith Bool.
-From Gocc Require Import LR.Parse LR.Validate LR.Trees LR.Sound LR.SoundTop Front.FUnicode Front.FScan Front.FScanProofs.
+From Gocc Require Import LR.Parse LR.Validate LR.Trees LR.Sound LR.SoundTop LR.SoundGated LR.Complete
+  Front.FUnicode Front.FScan Front.FScanProofs Front.Sem Front.SemProofs Front.SemTop.
 Import ListNotations.
 
 (** success of the front-end parser implies the token sequence is a sentence of the grammar the tables were
-    validated against — for ALL token sequences; nothing is skipped: the parse tree's yield is the whole input *)
+    validated against — for ALL token sequences; nothing is skipped: the parse tree's yield is the whole input.
+    (The shipped tables shift the keyword "error" as an ordinary terminal; the hypothesis is the gate.) *)
 Theorem C14_accept_only_sentences : forall g tb an sem input fuel v,
-  valid_backward g tb an = true -> no_error_shift tb = true ->
+  valid_backward g tb an = true ->
+  t_gate tb = true -> forallb (fun r => negb (s_recover r)) (t_states tb) = true ->
   Forall (fun t => ttype t <> EOFT) input -> Forall (fun t => (ttype t < nterms tb)%nat) input ->
   r_out (parse tb sem input fuel) = POk v ->
   exists t pr0 X0, nth_error g 0 = Some pr0 /\ rhs pr0 = [X0] /\ wt g X0 t input.
 Proof.
-  intros g tb an sem input fuel v HV HN HI HR Hok.
-  pose proof (parse_sound_valid g tb an sem input fuel HV HN HI HR) as H.
-  unfold good_result in H. rewrite Hok in H.
-  destruct H as (t & pr0 & X0 & c & H0 & H1 & H2 & _). exists t, pr0, X0. auto.
+  intros g tb an sem input fuel v HV HG HN HI HR Hok.
+  destruct (parse_sound_gated g tb an sem input HG HN fuel v HV HI HR Hok) as (t & pr0 & X0 & c & H0 & H1 & H2 & _).
+  exists t, pr0, X0. auto.
 Qed.
 Print Assumptions C14_accept_only_sentences.
 
@@ -27,3 +34,49 @@ Theorem C14_tokens_in_file_order : forall src ts e, fscan_all src = (ts, e) ->
   Forall (tok_in_src src) ts /\ Sorted.StronglySorted tok_before ts.
 Proof. intros src ts e H. exact (conj (fscan_all_lits src ts e H) (fscan_all_offsets src ts e H)). Qed.
 Print Assumptions C14_tokens_in_file_order.
+
+(** the semantic checks accept EXACTLY the declaratively well-formed files ([sem_wf] is written without reference to
+    the checking code): no lexical identifier defined twice; every regular definition referred to is defined, wherever
+    the reference occurs; no regular definition a token reaches is recursive; every symbol of a syntax body that the
+    scanner classifies as a production name is defined; no reserved name; no alternative without symbols *)
+Theorem C14_semantic_verdict_iff_well_formed : forall ft toks,
+  sem_verdict ft toks = SemOk <-> sem_wf ft toks.
+Proof. exact sem_verdict_ok_iff. Qed.
+Print Assumptions C14_semantic_verdict_iff_well_formed.
+
+Theorem C14_semantic_ok_facts : forall ft toks, sem_verdict ft toks = SemOk ->
+  NoDup (tok_defs ft toks) /\ NoDup (reg_defs ft toks) /\ NoDup (ign_defs ft toks) /\
+  (forall r, In r (reg_uses ft toks) -> In r (reg_defs ft toks)) /\
+  regdefs_acyclic (lex_defs ft toks) /\
+  (forall p, UpperInitial p -> In p (prod_uses ft toks) -> In p (tok_defs ft toks ++ prod_heads ft toks)) /\
+  (forall a, In a (aug_alts ft toks) -> snd a <> [] /\ fst a <> n_INVALID /\
+             forall s, In s (snd a) -> snd s <> n_INVALID /\ snd s <> n_EOF).
+Proof. exact sem_ok_facts. Qed.
+Print Assumptions C14_semantic_ok_facts.
+
+(** the whole front-end model: an accepted token list is a sentence of the grammar (all of it), the definitions the
+    semantic model checks ARE the definition nodes of its parse tree (head = first child, body = yield of the third
+    child: "the token followed by ':' ... up to ';'" is not a heuristic), and they are well formed.  [cut_ok] is a
+    boolean side condition on the grammar, evaluated by the kernel on the spec grammar on every run. *)
+Theorem C14_accepted_files_are_well_formed : forall ft g tb an sf toks fuel,
+  valid_backward g tb an = true ->
+  t_gate tb = true -> forallb (fun r => negb (s_recover r)) (t_states tb) = true ->
+  (0 <= ft_colon ft)%Z -> (0 <= ft_semi ft)%Z ->
+  cut_ok g (Z.to_nat (ft_colon ft + 1)) (Z.to_nat (ft_semi ft + 1)) sf = true ->
+  Forall (fun t => f_type t <> 0%Z) toks -> Forall (fun t => (Z.to_nat (f_type t + 1) < nterms tb)%nat) toks ->
+  front_accepts ft tb fuel toks = true ->
+  sem_wf ft toks /\
+  exists t pr0 X0, nth_error g 0 = Some pr0 /\ rhs pr0 = [X0] /\ wt g X0 t (to_ptoks 0 toks) /\
+    defs_tree g (Z.to_nat (ft_colon ft + 1)) t = map (pmap mk) (tagged_defs ft toks) /\
+    defs ft toks = map (pmap snd) (tagged_defs ft toks).
+Proof. exact front_accepts_sound. Qed.
+Print Assumptions C14_accepted_files_are_well_formed.
+
+(** conversely (no spurious rejection at model level): a sentence whose definitions are well formed is accepted *)
+Theorem C14_well_formed_sentences_accepted : forall ft g tb an toks,
+  valid_forward g tb an = true ->
+  forall pr0 X0 t, nth_error g 0 = Some pr0 -> rhs pr0 = [X0] -> wt g X0 t (to_ptoks 0 toks) ->
+  sem_wf ft toks ->
+  forall fuel, (size t + 1 <= fuel)%nat -> front_accepts ft tb fuel toks = true.
+Proof. exact front_accepts_complete. Qed.
+Print Assumptions C14_well_formed_sentences_accepted.
